@@ -1428,7 +1428,7 @@ func Run(t *testing.T, scAny any, c *kernel.Ctx) error {
 var Prop = &kernel.Property{
 	ID:    "C16",
 	Level: "exploration",
-	Rule: "seeded cases (rapid): configured server name (none, two-label, three-label, mixed case), strict flag, persistent clients identified by ClientID with filtering off; ops = single requests and bursts of 2-64 requests of all six transports with generated server names (equal, immediate sub, deeper, sibling, parent, suffix lookalikes, appended suffix, empty, with port, trailing / leading dot, IP literal, letter-case variants of either part), Host headers (with / without / empty port, bracketed, malformed; over plain HTTP they are the server name), raw DoH request targets (no id, id, trailing / doubled / leading slashes, dot segments, extra segments, foreign endpoints, percent-escapes of dots, slashes, letters, whole segments) and valid / invalid labels (63 and 64+ octets, leading / trailing hyphen, underscore, space, control, non-ASCII, punctuation); burst requests are received in index order and handled in a drawn order while the earlier ones are parked in a sleeping upstream; upstream error / SERVFAIL / slow answers; reconfiguration of the DNS server between requests; " +
+	Rule: "seeded cases (rapid): configured server name (none, two-label, three-label, mixed case), strict flag, persistent clients identified by ClientID with filtering off; ops = single requests and bursts of 2-64 requests of all six transports with generated server names (equal, immediate sub, deeper, sibling, parent, suffix lookalikes, appended suffix, empty, with port, trailing / leading dot, IP literal, letter-case variants of either part), Host headers (with / without / empty port, bracketed, malformed; over plain HTTP they are the server name), raw DoH request targets (no id, id, trailing / doubled / leading slashes, dot segments, extra segments, foreign endpoints, percent-escapes of dots, slashes, letters, whole segments) and valid / invalid labels (63 and 64+ octets, leading / trailing hyphen, underscore, space, control, non-ASCII, punctuation, valid labels with one letter replaced by a non-ASCII relative: KELVIN SIGN, LONG S, dotless / dotted I, full-width forms; the same replacement in the configured part of a server name); questions: A / AAAA / ANY for a name of the request's own, the browsers' canary domain, the healthcheck name, the resolver-discovery name, reverse questions for private addresses, with the server's settings AAAA-disabled / refuse-ANY / handle-DDR drawn per case, so that some requests are answered by the server before or without client identification; burst requests are received in index order and handled in a drawn order while the earlier ones are parked in a sleeping upstream; upstream error / SERVFAIL / slow answers; reconfiguration of the DNS server between requests; " +
 		"non-trivial = at least one request was attributed to a ClientID, at least one was rejected, and at least one burst, reconfiguration or upstream fault happened; distinct = distinct scenario digests",
 	Gen: Gen,
 	New: func() any { return &Scenario{} },
@@ -1448,6 +1448,7 @@ var Prop = &kernel.Property{
 		"left open by the statement, counted as probes, only 'never any other identifier' is asserted: letter case of the configured part of the server name; names deeper than an immediate subdomain; an empty leading label; non-canonical path spellings (either refused or treated as their RFC 3986 normal form); paths outside /dns-query; an empty server name or no configured name under strict checking; a DoH request whose path and server name both name an identifier (either one); malformed Host headers",
 		"a request is 'failed' when it is neither logged, counted nor forwarded and its reply, if any, carries an error code and no answer; SERVFAIL vs other codes is counted, not asserted",
 		"bursts stay far below the 1024-entry hand-off cache",
+		"a request with a question the server may answer by itself (disabled or refused type, reserved name) that is answered without being logged, counted or forwarded is accepted when the statement allows the request to be processed; when the statement demands failure, a success reply is a violation as for any other request",
 	},
 	FaultKinds: []string{"upstream_error", "upstream_servfail", "upstream_slow", "burst_in_flight", "out_of_order_handling", "reconfigure", "reconfigure_with_requests_in_flight"},
 	ProbeNames: []string{"sched_steps", "sched_switches", "id_attributed", "id_settings_applied", "id_from_sni", "id_from_sni_doh", "id_from_path", "id_from_host_header", "id_both_sources", "processed_without_id",
